@@ -87,6 +87,9 @@ pub struct Case {
    pub actors: Vec<Actor>,
    pub sched: SchedPlan,
    pub max_steps: u64,
+   /// C19 only: an index-level scenario instead of program actors
+   #[serde(default, skip_serializing_if = "Option::is_none")]
+   pub index_scenario: Option<crate::c19::IndexScenario>,
    /// filled in by the harness when a violation is persisted
    #[serde(default, skip_serializing_if = "Option::is_none")]
    pub violation: Option<ViolationInfo>,
